@@ -186,6 +186,7 @@ def wrapper_env_attr(tree: Tree) -> str:
 
 
 _BORROW_CACHE: Dict[str, object] = {}
+_IN_PROGRESS: set = set()
 
 
 def borrow(res, module: str, rule_map: Dict[str, str], envs=None, only_if=None) -> int:
@@ -194,8 +195,16 @@ def borrow(res, module: str, rule_map: Dict[str, str], envs=None, only_if=None) 
     environments whose step trusts the mask, C06).  `envs`: class names the obligation's function must belong to;
     `only_if(ob)`: extra filter; an obligation filtered out by `only_if` while violated is kept as holding."""
     import importlib
+    if module in _IN_PROGRESS:
+        # cyclic borrowing (A borrows from B whose check borrows from A): the inner request is skipped -- every
+        # obligation is still decided by its own property's check and by the outermost borrower
+        return 0
     if module not in _BORROW_CACHE:
-        _BORROW_CACHE[module] = importlib.import_module("jstat.rules." + module).check("quick")
+        _IN_PROGRESS.add(module)
+        try:
+            _BORROW_CACHE[module] = importlib.import_module("jstat.rules." + module).check("quick")
+        finally:
+            _IN_PROGRESS.discard(module)
     src = _BORROW_CACHE[module]
     n = 0
     for ob in src.obligations:
